@@ -68,7 +68,7 @@ fn main() {
                 tx = w.0;
                 rx = w.1;
                 let id = line.split_whitespace().nth(1).unwrap_or("?").to_string();
-                if aug { line.clone() } else { format!("{} hang", id) }
+                if aug { format!("HANG {}", line) } else { format!("{} hang", id) }
             }
         };
         writeln!(out, "{}", res).unwrap();
